@@ -134,6 +134,9 @@ func (tb *ATable) RegisterPropertyCallback(
 		case CB_ON_ITSELF, CB_ON_CELL:
 			set = &base.callbacks
 		}
+	case Table:
+		// a wrapper embedding a Table: its callbacks are held by the core table
+		return tb.RegisterPropertyCallback(tb, when, target, theNewCallback)
 	default:
 		return fmt.Errorf("do not know how to register callbacks for type %T", owner)
 	}
